@@ -8,7 +8,7 @@ use crate::json::Json;
 pub fn meta(_ctx: &Ctx) -> Meta {
     Meta {
         rule: "every shape (c,h,w) in {1..4}^3 plus (1,1,7),(5,1,2),(2,6,1); every ordered 3-D->3-D pair; vector(n)<->3-D for n in 0..=64 against every shape; targets with an extent of 0 (must be refused for a non-empty source); seven large shapes (1024..3072 elements, tall / wide / square) against each other and their vectors; ops flatten/get_flat/get_triple/reshape and there-and-back (get_triple of a vector as a 3-D shape of another count must be refused like reshape); every case with three kinds of contents: 0,1,2,.. (pairwise distinct); zeros and subnormal numbers only; a cycle through -0, subnormals, 1e-30, +-1e-5, 1+-ulp, +-MAX, +-inf and NaN - compared as bit patterns. Non-trivial = a case with >=2 elements whose target nesting differs from the source nesting".into(),
-        bound: "extents <= 4 (thorough 5) plus elongated and large shapes, vector lengths <= 64 (thorough 128); complete within the bound".into(),
+        bound: "extents <= 4 (thorough 7) plus elongated and large shapes, vector lengths <= 64 (thorough 343); complete within the bound".into(),
         exhaustive: true,
         assumptions: vec!["vector->vector reshape and get_triple are only exercised with equal counts (the refusal clause names vector<->3-D and 3-D<->3-D)".into()],
     }
@@ -152,8 +152,8 @@ pub fn check(case: &Kv, rep: &mut Report) {
 }
 
 pub fn cases(thorough: bool) -> Vec<Kv> {
-    let sh = shapes(if thorough { 5 } else { 4 });
-    let max_vec = if thorough { 128usize } else { 64usize };
+    let sh = shapes(if thorough { 7 } else { 4 });
+    let max_vec = if thorough { 343usize } else { 64usize };
     let mut out = Vec::new();
     for a in &sh {
         for b in &sh {
